@@ -57,14 +57,18 @@ def mutations(nodes, rnd):
                         new[j] = {"TOp1": "TOp2", "TOp2": "TOp1", "TOp0": "TOp1Def", "TColl": "TColl2", "TColl2": "TColl"}.get(segs[j])
                         if new[j] is None:
                             continue
+                        alts = [new[j]]
                     else:
-                        new[j] = rnd.choice([segs[j] + "x", segs[j].replace(".", "_") if "." in segs[j] else segs[j] + ".v",
-                                             segs[j].upper() if segs[j].upper() != segs[j] else segs[j].lower()])
-                    if new[j] == segs[j]:
-                        continue
-                    m = copy.deepcopy(nodes)
-                    m[i]["processor"] = ":".join(new)
-                    out.append((f"processor-shorthand-segment:{segs[0]}:{j}", m, i))
+                        # all three spellings, not a drawn one: which of them collides depends on the segment
+                        alts = [segs[j] + "x", segs[j].replace(".", "_") if "." in segs[j] else segs[j] + ".v",
+                                segs[j].upper() if segs[j].upper() != segs[j] else segs[j].lower()]
+                    for alt_seg in alts:
+                        if alt_seg == segs[j]:
+                            continue
+                        new[j] = alt_seg
+                        m = copy.deepcopy(nodes)
+                        m[i]["processor"] = ":".join(new)
+                        out.append((f"processor-shorthand-segment:{segs[0]}:{j}", m, i))
         # a parameter value at every path
         for path, leaf in leaf_paths(n.get("parameters") or {}):
             m = copy.deepcopy(nodes)
